@@ -280,6 +280,37 @@ def check(ctx, rep):
     rep.ob("R-LOCK-BLOCK", "blocking calls examined", True, "%d blocking calls with a lock held were examined" % n_block)
     rep.note("lock roles seen: %s" % sorted("%s.%s:%s" % (a, b, "/".join(sorted(str(x) for x in k))) for (a, b), k in locks_seen.items()))
 
+    # ---- two orders that keep foreign code, run by a delegate while it holds its own non-reentrant lock, from
+    # coming back into a blocking wait of this library (shared with C11 and C07)
+    from . import c11 as _c11, c07 as _c07
+    from ..core import Report as _Report
+    rep.rule("R-GATE-FIRST", "shutdown() sets the executor's own shutdown flag before it calls the delegate's / base class's shutdown(): a submit() made by a callback that the delegate runs during its shutdown (cancel_futures) is refused at the gate instead of blocking on the delegate's shutdown lock, which its own thread holds")
+    sub11 = _Report(rep.pid, ctx)
+    _c11.check(ctx, sub11)
+    ng = 0
+    for o in sub11.obs:
+        if o.rule == "R-SHUT" and "closes the gate before" in o.key:
+            ng += 1
+            rep.ob("R-GATE-FIRST", o.key, o.ok, o.detail, o.where, o.trace)
+    rep.count("first-shutdown paths with a delegate shutdown", ng, 8)
+    rep.rule("R-BLOCK-SELF", "the blocking submit of the throttle executor waits on the queue length only: a running callable counts for nothing there, so a submit() made from inside a running callable never waits for its own caller to finish (and never sits on the shutdown gate, which it holds, for ever)")
+    sub07 = _Report(rep.pid, ctx)
+    err07 = None
+    try:
+        _c07.check(ctx, sub07)
+    except AnalysisError as e:  # what was found before the anchor was lost still counts (as in check.py)
+        err07 = e
+    nbq = nbad = 0
+    for o in sub07.obs:
+        if o.rule in ("R-ADMIT", "R-NULLABLE") and o.key.startswith("blocking submit"):
+            nbq += 1
+            nbad += 0 if o.ok else 1
+            rep.ob("R-BLOCK-SELF", o.key, o.ok, o.detail, o.where, o.trace)
+    if err07 is not None and not nbad:
+        raise err07
+    if err07 is None:
+        rep.count("blocking-submit obligations", nbq, 2)
+
     # ---- weak-reference callbacks run wherever the garbage collector happens to run -- in particular inside this
     # thread's own critical sections (any allocation can trigger a collection).  A lock such a callback takes must
     # be re-entrant, or the thread blocks on a lock it already holds.
